@@ -26,7 +26,10 @@ RULE = ('case = one generated expression (type-directed grammar, depth <= 5, see
         'evaluated through aggregate([{$project:{r:e}}]), aggregate([{$addFields:{r:e}}]) and '
         'find({$expr:e}) on /repo and through the Lean model; non-trivial = the computed value '
         'differs between two documents of the case and no document raises; distinct = by hash of '
-        'the wire encoding of (expression, documents)')
+        'the wire encoding of (expression, documents); one generated case in five comes from the '
+        'wide-number stream (half of its numbers are int64 values of 31 to 63 bits, boundary values '
+        'around 2**31, 2**53 and 2**63 included); every run also evaluates the boundary-operand grid '
+        '(each numeric operator on each pair of two fixed lists of boundary operands)')
 
 ASSUMPTIONS = [
     'outside F (model answers "unmodelled"): float results that are not exact dyadic doubles '
@@ -35,7 +38,10 @@ ASSUMPTIONS = [
     'containers, dates and ObjectIds, non-ASCII case mapping / substr / split, aware datetimes and '
     'the timezone form of the date operators, $dateToString/$dateFromParts/$dateFromString, '
     '$regexMatch, operator arguments that Python iterates as strings or dicts, $let/$map names '
-    'that are not strings, $project with a bare 0/1/true/false value (inclusion flag)',
+    'that are not strings, $project with a bare 0/1/true/false value (inclusion flag), an int '
+    'beyond 2**53 that float() would round next to a float operand ($add / $subtract / $divide / '
+    '$mod / $avg convert it first; two ints stay exact and are compared), a computed date outside '
+    'datetime.min..datetime.max (the code raises OverflowError where the server has a date)',
     'MONGODB server version > 4.4 (mongomock.SERVER_VERSION default 5.0.5): $ifNull accepts '
     'several inputs',
     'an expression on which /repo raises NotImplementedError (and the model predicts exactly '
